@@ -2,5 +2,11 @@ package props
 
 // All maps harness names to functions for the native replay runner.
 var All = map[string]func(){
-	"C05_IntOut_int64": C05_IntOut_int64,
+	"C05_IntOut_num":     C05_IntOut_num,
+	"C05_IntOut_string":  C05_IntOut_string,
+	"C05_Int64Out_num":   C05_Int64Out_num,
+	"C05_FloatOut_num":   C05_FloatOut_num,
+	"C05_Float64Out_num": C05_Float64Out_num,
+	"C05_BoolOut":        C05_BoolOut,
+	"C05_StringOut_int":  C05_StringOut_int,
 }
